@@ -36,13 +36,20 @@ def utf8Payload (m : Rune) (comb : List Rune) : List Nat := Utf8.encode m ++ com
 def splitVariant (name : String) : String × Bool :=
   if name.endsWith "+lg" then (name.dropRight 3, true) else (name, false)
 
-def mkCfgs (env : Env) (ti : Terminfo) (tc : Bool) (fit fit0 : List (Nat × Nat)) (lg : Bool := false) : DrawCfg × RenderCfg :=
+/-- `<entry>[+lg][+fz]`: `+fz` = the tree under test has the Fill repair (fixes/C09-fill-zero-width.patch, probed by
+    `fillZWSuffix` in harness/engines/cb.go) → `DrawCfg.fillZW` -/
+def splitVariants (name : String) : String × Bool × Bool :=
+  let (n1, fz) := if name.endsWith "+fz" then (name.dropRight 3, true) else (name, false)
+  let (n2, lg) := splitVariant n1
+  (n2, lg, fz)
+
+def mkCfgs (env : Env) (ti : Terminfo) (tc : Bool) (fit fit0 : List (Nat × Nat)) (lg : Bool := false) (fz : Bool := false) : DrawCfg × RenderCfg :=
   let d := derive ti
   let dc : DrawCfg := { rw := env.rw, payload := utf8Payload, hasHide := !ti.hideCursor.isEmpty,
                         hasCursorStyle := fun cs => match d.cursorStyles with | some l => cs < l.length | none => false,
                         hasCursorRGB := !d.cursorRGB.isEmpty,
                         cornerTrick := ti.autoMargin && ti.disableAutoMargin.isEmpty && !ti.insertChar.isEmpty,
-                        guardLocked := lg }
+                        guardLocked := lg, fillZW := fz }
   let rc : RenderCfg := { ti := ti, d := d,
                           truecolor := tc && !(ti.setFgBgRGB.isEmpty && ti.setFgRGB.isEmpty && ti.setBgRGB.isEmpty),
                           fit := lookupFit fit, fit0 := lookupFit fit0 }
@@ -68,7 +75,7 @@ def run (env : Env) (rest : String) : String :=
   | name :: tc :: w :: h :: _ =>
     let opsStr := (rest.drop (name.length + tc.length + w.length + h.length + 4)).toString
     let ops := splitTrim opsStr ";"
-    let (base, lg) := splitVariant name
+    let (base, lg, fz) := splitVariants name
     match env.lookup base with
     | none => "no-entry"
     | some ti0 =>
@@ -76,7 +83,7 @@ def run (env : Env) (rest : String) : String :=
       let ti := prepTi ti0 tcb
       let fit := (ops.filterMap fun o => match words o with | ["FIT", t] => some (parsePairs t) | _ => none).flatten
       let fit0 := (ops.filterMap fun o => match words o with | ["FIT0", t] => some (parsePairs t) | _ => none).flatten
-      let (dc, rc) := mkCfgs env ti tcb fit fit0 lg
+      let (dc, rc) := mkCfgs env ti tcb fit fit0 lg fz
       let initB := Engage.engageBytes rc {} true
       let out0 : Array String := if initB.isEmpty then #[] else #["i:" ++ hex initB]
       let (wd, out, _) := ops.foldl (fun (acc : ScrW × Array String × Nat) op =>
